@@ -59,9 +59,12 @@ def cases(tier, seed):
                 out.append({"algorithm": "optimizer", "optim": o, "scheduler": s, "objective": "elbo" if (len(out) % 2 == 0 and o != "LBFGS") else "map",
                             "dtype": str(rng.choice(["torch.float64", "torch.float32"])), "nn": bool(rng.random() < 0.5), "definition": str(rng.choice(["tensor", "full", "zeros", "full_like"])),
                             "frequency": int(rng.choice([1, 2, 3, 5])), "seed": int(rng.integers(2**31))})
-        for m in MCMC_OPS * (2 if tier == "quick" else 3):
+        for im, m in enumerate(MCMC_OPS * (2 if tier == "quick" else 3)):
+            # (the first pass over the operator kinds writes a checkpoint at every iteration - every state an adaptor goes through is restarted
+            # from, whatever the random stream; the later passes draw the frequency)
+            fr = int(rng.choice([1, 2, 3, 5]))
             out.append({"algorithm": "mcmc", "ops": m, "dense": bool(rng.random() < 0.4), "dtype": "torch.float64", "nn": False, "definition": "tensor",
-                        "frequency": int(rng.choice([1, 2, 3, 5])), "seed": int(rng.integers(2**31)), "adapt": True})
+                        "frequency": 1 if im < len(MCMC_OPS) else fr, "seed": int(rng.integers(2**31)), "adapt": True})
     for m in ("hmc", "hmc-dual"):
         out.append({"algorithm": "mcmc", "ops": m, "dense": False, "dtype": "torch.float64", "nn": False, "definition": "tensor", "frequency": 2, "seed": int(rng.integers(2**31)), "adapt": True,
                     "find_step_size": True})
